@@ -387,9 +387,10 @@ class World:
         if cls == CLS_BLACKMAN:
             return BlackmanWaveform(A[0], A[1])
         if cls == CLS_PULSE:
-            return Pulse(A[0], A[1], A[2], A[3])
+            # keyword argument: exercises the kwargs branch of ParamObj.build
+            return Pulse(A[0], A[1], A[2], post_phase_shift=A[3])
         if cls == CLS_CAMP:
-            return Pulse.ConstantAmplitude(A[0], A[1], A[2], A[3])
+            return Pulse.ConstantAmplitude(A[0], A[1], phase=A[2], post_phase_shift=A[3])
         if cls == CLS_CDET:
             return Pulse.ConstantDetuning(A[0], A[1], A[2], A[3])
         raise ValueError(cls)
